@@ -27,8 +27,8 @@ def arbiters(dump, db="ta"):
 
 class C13(Spec):
     pid = "C13"
-    lean_module = "NunVerif.Props.C13"
-    theorems = ["Nun.C13_never_silent", "Nun.C13_resolve_last", "Nun.C13_resolve_pending", "Nun.resolveConflict_db", "Nun.conflictKey_ne_key"]
+    lean_module = "NunVerif.Props.C03Notify"
+    theorems = ["Nun.C13_arbiter_fanout_reaches_every_arbiter", "Nun.C13_never_silent", "Nun.C13_resolve_last", "Nun.C13_resolve_pending", "Nun.resolveConflict_db", "Nun.conflictKey_ne_key"]
     rule = ("single node, arbiter database: all sequences of length L over {plain write, stale versioned write, fresh versioned write, get-safe} x keys x "
             "{arbiter connect, arbiter unwatch-all, second arbiter, resolve the i-th notice received (echoing its op id and version)}; seeded random longer sequences over 2 keys. "
             "non-trivial = at least one conflict recorded and one resolve; distinct by trace hash")
@@ -54,6 +54,12 @@ class C13(Spec):
             c = list(pre3)
             for x in seq: c += x.split("\n")
             cases.append(c)
+        # an arbiter whose connection died while it had another database selected (the disconnect cleans the selected database only): its dead
+        # subscription stays AHEAD of the next arbiter's in the list of `$conflicts` — the next arbiter must still be sent every notice and the backlog
+        pre4 = SETUP + ["C 1 create-db tb tok2", "SESS 5", "C 5 use-db ta tok", "C 1 set k 0", "C 1 set k 1", "C 3 arbiter", "C 3 use-db tb tok2", "CLOSE 3"]
+        hot4 = ["C 2 set-safe k 0 c", "C 5 arbiter", "RESOLVE 5 0 r0", "C 1 set k p", "C 1 get-safe k"]
+        for seq in itertools.product(hot4, repeat=3 if tier == "quick" else 5):
+            cases.append(pre4 + list(seq))
         rng = core.XorShift(seed)
         al2 = alphabet(("k", "j"))
         for _ in range(1500 if tier == "quick" else 30000):
